@@ -320,6 +320,67 @@ def run(ctx):
                 res.traces_validated += len(observed)
         finally:
             shutil.rmtree(tmp, ignore_errors=True)
+    # a result written with a user codec by one process; a process that does not know the codec evaluates the same pipeline and is
+    # killed before each of its operations in turn (it may fail by itself: the blob cannot be read); a process that knows the codec
+    # evaluates again: it gets the report - whatever the second process did or left half done
+    tmp = tempfile.mkdtemp(prefix="ddsverif_c06u_")
+    try:
+        ws = os.path.join(tmp, "ws")
+        os.makedirs(ws)
+        um = "c6u_%d" % os.getpid()
+        with open(os.path.join(ws, um + ".py"), "w") as fh:
+            fh.write("import dds\n\nclass Report(object):\n    def __init__(self, text):\n        self.text = text\n\n    def __eq__(self, o):\n        return type(o) is type(self) and o.text == self.text\n\n"
+                     "def build():\n    return Report('report of the quarter')\n\ndef f0():\n    return dds.keep('/c/report', build).text\n")
+        with open(os.path.join(ws, um + "_codec.py"), "w") as fh:
+            fh.write("from dds.codec import codec_registry\nfrom dds.structures import FileCodecProtocol, ProtocolRef\nfrom dds.structures_utils import SupportedTypeUtils as STU\n"
+                     "from %s import Report\n\nclass ReportCodec(FileCodecProtocol):\n    def ref(self):\n        return ProtocolRef('user.report')\n\n"
+                     "    def handled_types(self):\n        return [STU.from_type(Report)]\n\n"
+                     "    def serialize_into(self, blob, loc):\n        with open(str(loc), 'wb') as f:\n            f.write(('REPORT:' + blob.text).encode('utf-8'))\n\n"
+                     "    def deserialize_from(self, loc):\n        with open(str(loc), 'rb') as f:\n            t = f.read().decode('utf-8')\n        assert t.startswith('REPORT:'), t[:40]\n        return Report(t[7:])\n\n"
+                     "codec_registry().add_file_codec(ReportCodec())\n" % um)
+
+        def uworker(d, with_codec):
+            def fn():
+                import importlib
+                sys.path.insert(0, ws)
+                for m_ in (um, um + "_codec"):
+                    sys.modules.pop(m_, None)
+                import dds
+                import dds.codec as codec_mod
+                codec_mod._registry = None
+                dds.accept_module(um)
+                mod = importlib.import_module(um)
+                if with_codec:
+                    importlib.import_module(um + "_codec")
+                dds.set_store("local", internal_dir=d + "/internal", data_dir=d + "/data")
+                return dds.eval(mod.f0)
+            return fn
+        seedd = os.path.join(tmp, "seed")
+        os.makedirs(seedd)
+        first = in_child(uworker(seedd, True))
+        if first[0] != "ok" or first[1] != "report of the quarter":
+            res.violations.append({"what": "a result with a user codec cannot be kept: %r" % (first,), "input": {"scenario": "user codec, process 1"}, "kf": None})
+        else:
+            k = 0
+            while k < 200:
+                d = os.path.join(tmp, "k%d" % k)
+                shutil.copytree(seedd, d, symlinks=True)
+                second = in_child(uworker(d, False), kill_at=k, base=d)
+                third = in_child(uworker(d, True))
+                res.evaluations += 2
+                res.count("scenario_unknown_codec_then_killed")
+                res.nontrivial("unknown codec killed at %d" % k)
+                shutil.rmtree(d, ignore_errors=True)
+                if third[0] != "ok" or third[1] != "report of the quarter":
+                    res.violations.append({"what": "a process that does not know the codec of a stored result evaluates the pipeline and is killed before its operation %d "
+                                                   "(outcome: %s); a process that knows the codec then gets %r instead of the report" % (k, second[0], third[1] if third[0] == "ok" else third),
+                                           "input": {"scenario": "unknown codec, killed", "kill_at": k}, "kf": None})
+                    break
+                if second[0] != "killed":
+                    break         # the second process ran to its end (or failed by itself) before the kill point: all points were tried
+                k += 1
+    finally:
+        shutil.rmtree(tmp, ignore_errors=True)
     pipeline.close_ref()
     res.exhaustive = True
     res.rule = ("scenarios {store creation + first keep, re-keep with changed code on a populated store, first keep through the cache wrapper; "
